@@ -264,6 +264,14 @@ class RawSession:
         self.rec.emit(dict(ev="Recv", sid=self.sid, op=op, res=res, exc=exc, bases=bases, interp=list(interp)))
         return res, exc
 
+    def position_salt(self, value):
+        """cfg(gufo_snmp_verif) hook: put the privacy salt counter at `value` (to cross the wrap-around within a run).  Recorded as a
+        key installation, which is what legitimately re-seeds the counter: uniqueness is judged from here on."""
+        self.sock.verif_set_salt(value)
+        e = dict(ev="SetKeys", sid=self.sid, exc="")
+        e.update({k: v for k, v in self.cfg.ev().items() if k in ("user", "auth", "priv", "akt", "akm", "pkt", "pkm")})
+        self.rec.emit(e)
+
     def set_keys(self, cfg):
         exc = ""
         try:
